@@ -37,7 +37,7 @@ def conditions(tier, seed):
     n = 3 if tier == 'quick' else 4
     for part in ('string', 'scalar', 'ident'):
         out.append(Cond('lex_%s' % part, 'c01_lex.py', dict(N=(n if part == 'string' else 0), part=part, timeout_ms=120000 if tier == 'quick' else 1800000),
-                        kind='script', timeout=900 if tier == 'quick' else 6 * 3600,
+                        kind='script', timeout=900 if tier == 'quick' else 2 * 3600,
                         bound=('every string over all code points with |v| <= %d' % n) if part == 'string' else
                               ('every serialised scalar of length <= 48' if part == 'scalar' else 'every identifier of length <= 12'),
                         symbolic=['the value string / text (z3 sequence theory)']))
